@@ -238,6 +238,29 @@ def roundtrip(run, vmf, opts: Dict[str, bool], engine: str, case: Any, features:
             run.violation(f'export(parse(export(m))) differs from export(m) at line {k + 1} (after id/known normalisation)',
                           witness={'first': l1[max(0, k - 3):k + 2], 'second': l2[max(0, k - 3):k + 2], 'opts': opts},
                           case=case, engine=engine, key='text-not-fixed-point')
+    # history: the map parsed from the text is edited in place (moved brushes, shifted texture axes, renamed entities, ...)
+    # and dropped, and the SAME text is parsed again - the second map is what the text says, whatever happened to the first
+    if len(text1) % 3 == 0:
+        try:
+            import random as _random
+            scratch = vmf2   # the FIRST map ever parsed from this text; it is not needed any more
+            edit_map(scratch, _random.Random(len(text1)))
+            for sol in list(scratch.brushes) + [s_ for e_ in scratch.entities for s_ in e_.solids]:
+                for f_ in sol.sides:
+                    f_.uaxis.offset += 3.5
+                    f_.vaxis.scale *= 2.0
+                    f_.planes[0].x += 64.0
+            again = gen_vmf.describe_map(VMF.parse(Keyvalues.parse(text1), preserve_ids=preserve), minimal)
+            normalise_multicolors(again, True)
+            run.count('texts_parsed_again_after_the_first_map_was_edited')
+            d_again = gen_vmf.diff(after, again)
+            if d_again is not None:
+                run.violation(f'the same text parsed a second time (after the first map was edited in place) differs at {d_again["path"]}: '
+                              f'{d_again["want"]!r} vs {d_again["got"]!r}', witness={'diff': d_again, 'opts': opts}, case=case, engine=engine,
+                              key='parse-depends-on-earlier-parse')
+        except Exception as exc:
+            run.violation(f'parsing the same text a second time raised {type(exc).__name__}: {exc}', witness=traceback.format_exc()[-1200:], case=case,
+                          engine=engine, key='parse-depends-on-earlier-parse')
     return text1
 
 
@@ -308,7 +331,7 @@ def main(run, shard=(0, 1)) -> None:
     probe.report(run)
     probe.check_reached(run)
     run.require('exports', 'parses', 'file_form_exports', 'parses_from_file_name', 'colliding_id_documents', 'maps_re_exported_after_edits', 'version_bumping_exports',
-                'maps_with_three_digit_fixup_indexes')
+                'maps_with_three_digit_fixup_indexes', 'texts_parsed_again_after_the_first_map_was_edited')
 
 
 def edit_map(vmf, rng) -> int:
